@@ -96,9 +96,9 @@ def run_variant(files, tree, v, log):
     inc = [spell(d, v['cwd'], v['inc_abs']) for d in tree['inc_dirs']]
     main = spell(tree['main'], v['cwd'], v['main_abs'])
     if v['via'] == 'api':
-        fs = SimFS(files, dirs, cwd=v['cwd'])
+        fs = asmsim.make_fs(files, dirs, cwd=v['cwd'])
         return asmsim.run_api(fs, {'target': main, 'compress': v['compress'], 'include_dirs': inc}, log)
-    fs = SimFS(files, dirs + ['/w/outdir'], cwd=v['cwd'])
+    fs = asmsim.make_fs(files, dirs + ['/w/outdir'], cwd=v['cwd'])
     argv = (['-c'] if v['compress'] else [])
     for d in inc:
         argv += ['-i', d]
@@ -114,6 +114,7 @@ def run_variant(files, tree, v, log):
     return {'ok': True, 'bytes': fs.files.get('/w/outdir/o.bin', b'').hex(), 'labels': labels, 'constants': None}
 
 
+@asmsim.with_fallback
 def run_scenario(scen, keep_events=False):
     res = core.Result()
     log = core.EventLog(keep=300 if keep_events else 0)
@@ -166,7 +167,7 @@ def run_scenario(scen, keep_events=False):
             fpath = posixpath.dirname(main) + '/__flat__.asm'
             ffiles[fpath] = ('\n'.join(flat) + '\n').encode('utf-8')
             for comp in (False, True):
-                fs = SimFS(ffiles, tree['dirs'], cwd=posixpath.dirname(main))
+                fs = asmsim.make_fs(ffiles, tree['dirs'], cwd=posixpath.dirname(main))
                 out = asmsim.run_api(fs, {'target': fpath, 'compress': comp, 'include_dirs': []}, log)
                 if out['ok']:
                     refs[comp].add(outcome_key(out)[1:])
